@@ -767,6 +767,27 @@ retry:
 				text = m.stderr
 			}
 			neg := m.r.Intn(3) == 0
+			if !wantOK && m.r.Intn(5) == 0 {
+				// malformed: more words than a pattern (the typical slip is an unquoted blank) - a usage
+				// failure whatever the first word alone would have matched
+				if pm, ok := m.pattern(text, true); ok {
+					extraWord := m.pick([]string{"extra", "'second pattern'", "."})
+					switch m.r.Intn(3) {
+					case 0:
+						t = which + " " + q(pm) + " " + extraWord
+					case 1:
+						pn, ok2 := m.pattern(text, false)
+						if !ok2 {
+							continue
+						}
+						t = "! " + which + " " + q(pn) + " " + extraWord
+					default:
+						t = which + " -count=1 " + q(pm) + " " + extraWord
+					}
+					o = oFail
+					break
+				}
+			}
 			if !wantOK && !neg && m.r.Intn(3) != 0 {
 				// the pattern matches, but not the demanded number of times
 				p, ok := m.pattern(text, true)
@@ -833,7 +854,7 @@ retry:
 			if !wantOK {
 				o = oFail
 				if m.r.Intn(5) == 0 {
-					t = m.pick([]string{"grep " + q(p), "grep " + q(p) + " " + m.spell(m.fresh("missing")), "! grep -count=1 a " + m.spell(f), "grep '(' " + m.spell(f), "grep -count=0 . " + m.spell(f)})
+					t = m.pick([]string{"grep " + q(p), "grep . " + m.spell(f) + " " + m.spell(f), "grep . " + m.spell(f) + " extra", "grep " + q(p) + " " + m.spell(m.fresh("missing")), "! grep -count=1 a " + m.spell(f), "grep '(' " + m.spell(f), "grep -count=0 . " + m.spell(f)})
 				}
 			}
 		case 22: // stdin + cat
